@@ -60,6 +60,11 @@ if __name__ == "__main__":
     E["fixed-C10-xmlpart-clone-stale"] = ("C10", [{"op": "init", "source": "template:spreadsheet"}, {"op": "add_file", "via": "bytesio", "content": 1}, {"op": "clone_part", "part": "manifest", "n": 1}], "pass", DCFG)
     E["fixed-C10-document-clone-drops-unsaved"] = ("C10", [{"op": "init", "source": "sample:example.odt", "how": "path", "salt": 0}, {"op": "edit", "kind": "para", "n": 1}, {"op": "set_part", "kind": "new", "n": 2, "name": "Extra/blob2.bin"}, {"op": "clone_doc"}], "pass", DCFG)
     E["C03-original-reads-overwritten-source-at-save"] = ("C03", [{"op": "init", "source": "sample:example.odt", "how": "path", "salt": 0}, SAVE(target="path"), {"op": "reopen", "art": 0, "how": "path", "salt": 0}, {"op": "clone_swap"}, {"op": "add_file", "via": "path", "content": 2}, SAVE(target="existing", existing=0), {"op": "save_other"}], "violation")
+    E["C13-drawing-page-common-default-lookup"] = ("C13", [{"op": "init", "source": "template:text"}, {"op": "ins_style", "family": "drawing-page", "n": 1, "target": "main", "kind": "common", "name": "simA", "name_via": "ctor"}], "violation")
+    E["C13-merge-twice-duplicates-draw-named-styles"] = ("C13", [{"op": "init", "source": "template:text"}, {"op": "open_other", "source": "sample:example.odp"}, {"op": "merge"}, {"op": "merge"}], "violation")
+    E["C13-merge-familyless-element-deletes-default-style"] = ("C13", [{"op": "init", "source": "sample:simple_table_named_range.ods", "how": "path", "salt": 0}, {"op": "open_other", "source": "sample:example.odp"}, {"op": "merge"}], "violation")
+    E["fixed-C13-merge-empties-source"] = ("C13", [{"op": "init", "source": "template:spreadsheet"}, {"op": "open_other", "source": "sample:example.odt"}, {"op": "merge"}], "pass")
+    E["fixed-C13-insert_style-name-argument"] = ("C13", [{"op": "init", "source": "template:text"}, {"op": "ins_style", "family": "list", "n": 1, "target": "main", "kind": "common", "name": "simA", "name_via": "arg"}, {"op": "ins_style", "family": "table-cell", "n": 2, "target": "main", "kind": "default", "name": "simB", "name_via": "arg"}], "pass")
     for fid, ent in E.items():
         prop, ops, expect = ent[:3]
         cfg = ent[3] if len(ent) > 3 else None
